@@ -168,7 +168,7 @@ def run(ctx):
     ctx.assume('records are compared bit-exact NaN-aware with an independent Fitter(...).fit on the same line',
                'a run that writes no record is not generated (zero-byte file: nothing claimed)', 'filter_output is not driven on files holding a record with zero selected fits (no best chi^2 to classify)', 'plot_params_1d/2d (PNG renderers) are driven in the thorough tier only: files produced and unchanged inputs are compared, not the rendering')
     ctx.require_events('trace:fit-run', 'record:compared', 'meta:compared', 'forms:file-vs-list', 'forms:file-vs-object', 'sequence:compared', 'unchanged:checked', 'sequence:written-then-read', 'filter_output:output-names-re-used')
-    ctx.require_regimes('data-file:last-line-without-newline', 'model_dir:not-in-canonical-spelling', 'list-from-two-reads', 'post:plot-with-stored-predictions')
+    ctx.require_regimes('names:with-hash-percent-quote', 'data-file:last-line-without-newline', 'model_dir:not-in-canonical-spelling', 'list-from-two-reads', 'post:plot-with-stored-predictions')
     ctx.require_regimes('skipped-sources', 'output_convolved', 'no-output_convolved', 'mode:2d', 'mode:3d', 'style:v1', 'style:v2',
                         'first-line-ineligible', 'short-line-ends-input', 'duplicate-source-name')
     n_runs = 5 if ctx.quick else 16
@@ -237,6 +237,11 @@ def run(ctx):
             return gen.source_line(name, valid, flux, err, rng.uniform(0, 360), rng.uniform(-90, 90)), int(np.sum((valid == 1) | (valid == 4)))
 
         snames = ['s%02d' % i for i in range(n_lines)]
+        if irun % 3 == 1:
+            # names are free text without blanks: catalogue designations with '#', '%', quotes, a leading '#'
+            for i_, form_ in zip(range(n_lines), ['IRS#%d', '#%d_in_list', "s%d'b", 'x%d%%y', 'J%d+01.5', '[KH]%d']):
+                snames[i_] = form_ % i_
+            ctx.regime('names:with-hash-percent-quote')
         if n_lines >= 3 and (slot10 == 2 or rng.random() < 0.3):
             snames[int(rng.integers(1, n_lines))] = snames[0]          # two lines may carry the same source name
             ctx.regime('duplicate-source-name')
